@@ -59,6 +59,34 @@ theorem viewSum_of_reach (a : Arr M) (n L : Nat) (h : List (Nat × M)) (latest n
   · intro s _ hw
     exact not_deprecated_of_window n L now Iv s.start r.L_pos hIv hw.1 hw.2
 
+/-- a view read at an **earlier** time `t` (as `GetPreviousQPS` does) is still exact as long as its window is
+    younger than one array cycle at `now` -/
+theorem viewSum_at_of_reach (a : Arr M) (n L : Nat) (h : List (Nat × M)) (latest now : Nat)
+    (r : Reach a n L h latest now) (t : Nat) (hpos : 0 < t) (Iv : Nat) (hIv : Iv ≤ n * L)
+    (hy : cbs L now < cbs L t + L - Iv + n * L) :
+    viewSum a Iv t = refW L h (cbs L t + L - Iv) (cbs L t) := by
+  obtain ⟨t0, inv⟩ := r.inv
+  unfold viewSum viewVals rangeOf
+  simp only [r.L_eq, r.n_eq, Nat.ne_of_gt hpos, if_false]
+  rw [sum_filter_eq_readW]
+  · have he := inv.e (cbs L t + L - Iv) (cbs L t)
+    rw [r.L_eq, r.n_eq] at he
+    apply he
+    have : cbs L latest ≤ cbs L now := cbs_mono L r.le
+    omega
+  · intro s _ hw
+    exact not_deprecated_of_window n L t Iv s.start r.L_pos hIv hw.1 hw.2
+
+theorem cbs_sub_mul (L now k : Nat) (hL : 0 < L) (hle : L * k ≤ now) : cbs L (now - L * k) + L * k = cbs L now := by
+  rw [cbs_eq, cbs_eq]
+  have : (now - L * k) / L = now / L - k := Nat.sub_mul_div_of_le now L k hle
+  rw [this]
+  have hk : k ≤ now / L := by
+    rw [Nat.le_div_iff_mul_le hL, Nat.mul_comm]; exact hle
+  rw [Nat.sub_mul]
+  have : k * L ≤ now / L * L := Nat.mul_le_mul_right _ hk
+  rw [Nat.mul_comm L k]; omega
+
 /-- **array-level read**: refresh at `now`, then all valid buckets; the refreshed array is reachable again -/
 theorem total_of_reach (a : Arr M) (n L : Nat) (h : List (Nat × M)) (latest now : Nat)
     (r : Reach a n L h latest now) (hpos : 0 < now) :
